@@ -56,6 +56,13 @@ type reqCtx struct {
 	NS       string // the handler substitutes "default-ns" for none; "" only for protobuf requests parsed without a request-level namespace
 	Enriched []kv   // non-empty keys/values within the length limits (handler checks)
 	Limits   *models.Limits
+	// Line-protocol requests only: the precision parameter of the write URL exactly as sent
+	// (any letter case; PrecAbsent = the URL carries no such parameter and the parser has to guess
+	// the unit) and Unit, the unit the client writes its timestamps in (ns us ms s m h; "" = ms).
+	// With a parameter the two name the same unit.
+	Prec       string
+	PrecAbsent bool
+	Unit       string
 }
 
 type format int
@@ -64,7 +71,7 @@ const (
 	fProto      format = iota // protobuf MetricList
 	fFlatClient               // flat buffer produced by the official client row builder
 	fFlatRaw                  // flat buffer written by a third-party client (tags as given, junk hashes)
-	fInflux                   // influx line protocol, precision=ms
+	fInflux                   // influx line protocol (timestamp unit = reqCtx.Prec / Unit)
 )
 
 func (f format) String() string {
